@@ -293,8 +293,8 @@ theorem C17_readback_violation_default (t : Table) (hwf : t.wf = true) (env : Op
     `float`/`complex` entry and reads back with both entries replaced by the tower's. -/
 theorem C17_readback_tower (t : Table) (hwf : t.wf = true) (env : Option String) (kw : RawKwargs)
     (a : Args) (h : normArgs t env kw = .ok a) (htow : a "is_pep484_tower" = .bool true) :
-    ∃ f c r hh, bindArgs t kw "hint_overrides" = .fdict f c r hh ∧ f.conflict = false ∧ c.conflict = false ∧
-      a "hint_overrides" = .fdict .tower .tower r hh := by
+    ∃ f c r hh ki, bindArgs t kw "hint_overrides" = .fdict f c r hh ki ∧ f.conflict = false ∧ c.conflict = false ∧
+      a "hint_overrides" = .fdict .tower .tower r hh false := by
   have hw := wf_of hwf
   obtain ⟨oh, hoh, hohk⟩ := hw.overrides
   obtain ⟨ic, _, _, hv, ht⟩ := normArgs_shape h
@@ -307,13 +307,13 @@ theorem C17_readback_tower (t : Table) (hwf : t.wf = true) (env : Option String)
   unfold towerStep at ht
   rw [if_pos htow2, hho] at ht
   cases hb : bindArgs t kw "hint_overrides" with
-  | fdict f c r hh =>
+  | fdict f c r hh ki =>
     simp only [hb] at ht
     by_cases hc : (f.conflict || c.conflict) = true
     · simp [hc] at ht
     · simp only [hc, Bool.false_eq_true, ↓reduceIte, Except.ok.injEq] at ht
       simp only [Bool.or_eq_true, not_or, Bool.not_eq_true] at hc
-      exact ⟨f, c, r, hh, rfl, hc.1, hc.2, by rw [← ht]; simp [upd]⟩
+      exact ⟨f, c, r, hh, ki, rfl, hc.1, hc.2, by rw [← ht]; simp [upd]⟩
   | _ => simp [hb, validKind] at hval
 
 /-! ## `BeartypeConf(**conf.kwargs) is conf` -/
@@ -473,7 +473,7 @@ example : (resultsFrom confTable [] [.new none [("is_debug", .bool true)], .new 
 
 /-- unhashable values — the invalid `hint_overrides={int: str}` and the otherwise valid
     `claw_skip_package_names=['a']` — are BeartypeConfParamException -/
-example : (resultsFrom confTable [] [.new none [("hint_overrides", .dict 1)],
+example : (resultsFrom confTable [] [.new none [("hint_overrides", .dict 1 false)],
     .new none [("claw_skip_package_names", .coll .list [.str "a" true])],
     .new none [("claw_skip_package_names", .coll .tuple [.str "a" true])]]) = [.paramExc, .paramExc, .conf 0] := by decide
 
